@@ -8,7 +8,7 @@ git -C /repo apply --check "$patch" || { echo "patch does not apply" >&2; exit 2
 git -C /repo apply "$patch"
 # evidence files are rewritten by every run: keep the clean-tree ones
 rm -rf /verif/out/evidence.keep && cp -r /verif/evidence /verif/out/evidence.keep
-trap 'git -C /repo checkout -- . ; rm -rf /verif/evidence; mv /verif/out/evidence.keep /verif/evidence' EXIT
+trap 'git -C /repo checkout -- . ; git -C /repo clean -fdq -- x types api; rm -rf /verif/evidence; mv /verif/out/evidence.keep /verif/evidence' EXIT
 for p in "$@"; do
   out=$(VERIF_BUDGET_S=$budget ./check.sh $p quick 2>&1); rc=$?
   echo "== $p rc=$rc"
